@@ -35,6 +35,7 @@ import (
 	"strconv"
 	"strings"
 	"sync"
+	"sync/atomic"
 	"testing"
 	"time"
 
@@ -114,6 +115,8 @@ type c38Job struct {
 type c38Harness struct {
 	root  string
 	debug bool
+	stop  atomic.Bool    // the walk is over: workers start no further child
+	wg    sync.WaitGroup // running workers
 	mu    sync.Mutex
 	jobs  map[string]*c38Job
 	n     int
@@ -199,8 +202,13 @@ func (h *c38Harness) start() error {
 	}
 	close(ch)
 	for w := 0; w < workers; w++ {
+		h.wg.Add(1)
 		go func() {
+			defer h.wg.Done()
 			for b := range ch {
+				if h.stop.Load() {
+					return
+				}
 				c38RunBatch(h.claim(b))
 			}
 		}()
@@ -730,6 +738,8 @@ func c38Canon(v reflect.Value) any {
 func TestVerifConvert(t *testing.T) {
 	h := &c38Harness{}
 	defer func() {
+		h.stop.Store(true)
+		h.wg.Wait() // at most one batch per worker is still under way
 		if h.root != "" && !h.debug {
 			os.RemoveAll(h.root)
 		}
